@@ -98,11 +98,6 @@ inductive Op (N : BNDom V K) where
   | setTop (d : Nat)
   | setBottom (d : Nat)
 
-/-- `&`, `&=`, `&&` -/
-def Op.isLower : Op N → Bool
-  | .meet .. | .meetEq .. | .narrow .. => true
-  | _ => false
-
 /-- what the history theorem asks of the base domain -/
 def Op.BaseSound (isBool : V → Bool) : Op N → Prop
   | .bcst _ f2 x c => N.TSound f2 (relBcst x c)
@@ -154,17 +149,6 @@ def Op.toStep (isBool : V → Bool) : Op N → Step (FBN N) (CSt V)
 def toHist (isBool : V → Bool) (ops : List (Op N)) : List (Step (FBN N) (CSt V)) :=
   ops.map (Op.toStep isBool)
 
-/-- the side condition of `&`, `&=`, `&&` (`FBN.sameUnch`) on the operands the history gives them -/
-def Op.lowerOk (p : Pool (FBN N)) : Op N → Bool
-  | .meet _ a b => sameUnch (p a) (p b)
-  | .meetEq _ a b => sameUnch (p a) (p b)
-  | .narrow _ a b => sameUnch (p a) (p b)
-  | _ => true
-
-/-- ... evaluated along the run of the history from the pool `p` -/
-def lowerSafe (isBool : V → Bool) : Pool (FBN N) → List (Op N) → Prop
-  | _, [] => True
-  | p, op :: rest => op.lowerOk p = true ∧ lowerSafe isBool ((op.toStep isBool).run p) rest
 end FBN
 
 end Fct
